@@ -60,6 +60,10 @@ def matrix_rows(tier, prop, per_run=8):
             return False         # two different files would have to share one location
         if row["shape"] == "single" and row["layout"] == "mirror":
             return False
+        if row["shape"] == "single" and row.get("tname", "name") != "name":
+            return False         # the search file would have to carry the torrent's name (the harness places it as 'name')
+        if row["shape"] == "ungrouped3" and row["layout"] in ("deep", "nested"):
+            return False         # the file 'x' would collide with the directory /src/x of these layouts
         return True
     if prop not in _MROWS:
         _MROWS[prop] = matrix.pairwise(dims, ok)
@@ -110,8 +114,13 @@ def build_world(E, version, shape, P, K, layout, decoy="none", dest_pre="empty",
             continue
         fs.add(place(r, i), cr.fid_of(shape, r, names), sizes[r])
     for d in SEARCH[layout]:
-        fs.mkdirs(d)
-    fs.add(SEARCH[layout][0] + "/unrelated.bin", ("u", 0), 123)
+        cur = ""
+        for comp in d.split("/"):          # every directory the (possibly un-normalised) spelling passes through exists
+            if comp in ("", "."):
+                continue
+            cur = os.path.dirname(cur) if comp == ".." else cur + "/" + comp
+            fs.mkdirs(cur or "/")
+    fs.add(os.path.normpath(SEARCH[layout][0]) + "/unrelated.bin", ("u", 0), 123)
     if decoy == "partial":
         # same name, same size, first piece identical to the real file, the rest different; listed before the real one
         r0 = rels[0]
